@@ -9,7 +9,8 @@ from ..gen_prog import ProgGen
 LEVEL = "exploration"
 RULE = ("seeded random multi-statement inputs whose every expression carries its dimension vector by construction "
         "(annotated/unannotated let, fn with concrete, generic, inferred and where-clause forms, unit and dimension "
-        "definitions, structs, lists, prints; + - * / ^const -> if calls to generated and library-generic functions): "
+        "definitions, structs, lists, prints; + - * / ^const -> if calls to generated and library-generic functions; uses of "
+        "the last-result identifiers `ans` / `_` after expression statements, which have that statement's type): "
         "(1) the input must be accepted and the type reported for every let/unit/expression/concrete fn must equal the "
         "constructed vector; (2) for 1-3 mutants per program — one sub-expression at a place where equality of "
         "dimensions is required (+, -, comparison, ->, if-branches, list elements, annotation, argument, return type, "
@@ -49,6 +50,7 @@ def run_program(sh, w, db, pool, rng, k):
         return
     code = "\n".join(s["text"] for s in stmts)
     case = {"code": code}
+    sh.count("statements_using_ans", sum(1 for s in stmts if s.get("uses_ans")))
     sid = w.fork("p")
     try:
         r = w.eval(sid, code, stmts=True)
